@@ -73,6 +73,7 @@ def build_cfg(unit):
     decorated = el if mode == "all" else [nodes[x]]
     for n in nodes:
         if n.kind == "F":
+            # placeholder; run_unit replaces it by a callable that stamps every evaluation (a fresh value per completion)
             F.cfg_node(cfg, n)["output"] = {"from": n.id}
     for n in decorated:
         sub = F.cfg_node(cfg, n)
@@ -155,9 +156,25 @@ def run_unit(unit):
     for engine in ENGINES:
         h = Harness(cfg, with_plugin=True)
         rec = h.rec
+        # final-state outputs are callables: each evaluation logs ("OUT", id, k) with a fresh k, so the data a done event
+        # carries can be tied to an evaluation made during THIS completion (a cached value of an earlier one shows)
+        # (the stamp is the context counter c, bumped mod 3 by every onDone handler: deterministic per history)
+        def out_cb(fid, rec=rec):
+            def f(args):
+                k = args["context"].get("c", 0)
+                rec.log.append(("OUT", fid, k))
+                return {"from": fid, "k": k}
+            return f
+
+        for n in nodes:
+            if n.kind == "F":
+                F.cfg_node(cfg, n)["output"] = out_cb(n.id)
+        cfg.setdefault("context", {})["c"] = 0
+        h.cfg = cfg
 
         def od_action(interp, ctx, event, action_def, rec=rec):
             rec.log.append(("OD", action_def.params["id"], jsonable(getattr(event, "data", None)), event.type))
+            ctx["c"] = (ctx.get("c", 0) + 1) % 3
 
         h._kw["extra_actions"] = {"od": od_action}
         viol = []
@@ -183,7 +200,16 @@ def run_unit(unit):
                             due_rec.append((sid, {"from": n.id}))
                         if n.parent is nodes[0]:
                             root_final = n
-            got = [(e[1], e[2]) for e in seg if e[0] == "OD"]
+            got_full = [(e[1], e[2]) for e in seg if e[0] == "OD"]
+            stamps: Dict[str, set] = {}
+            for e in seg:
+                if e[0] == "OUT":
+                    stamps.setdefault(e[1], set()).add(e[2])
+            for sid, data in got_full:
+                if isinstance(data, dict) and "k" in data and data["k"] not in stamps.get(data.get("from"), set()):
+                    flag("done-data-stale", f"done.state.{sid} carries output stamp {data['k']} of {data.get('from')}, "
+                         f"but the output evaluations of this completion are {sorted(stamps.get(data.get('from'), []))}", hist, ev)
+            got = [(sid, ({"from": data["from"]} if isinstance(data, dict) and "from" in data else data)) for sid, data in got_full]
             kd = sorted(due, key=repr)
             kg = sorted(got, key=repr)
             if mode == "leave":
@@ -216,7 +242,15 @@ def run_unit(unit):
                 if len(dones) != 1 and o[2] == "done":
                     flag("on_done-hook-count", f"{len(dones)} on_done hooks", hist, ev)
                 want = {"machine": True} if mout else {"from": root_final.id}
-                if o[2] == "done" and o[4] != __import__("json").dumps(want, sort_keys=True):
+                try:
+                    got_out = __import__("json").loads(o[4]) if isinstance(o[4], str) else o[4]
+                except ValueError:
+                    got_out = o[4]
+                if isinstance(got_out, dict) and "k" in got_out:
+                    if got_out["k"] not in stamps.get(got_out.get("from"), set()):
+                        flag("done-data-stale", f"machine output carries stamp {got_out['k']}, evaluations of this completion: {sorted(stamps.get(got_out.get('from'), []))}", hist, ev)
+                    got_out = {k_: v_ for k_, v_ in got_out.items() if k_ != "k"}
+                if o[2] == "done" and got_out != want:
                     flag("machine-output", f"expected {want} got {o[4]}", hist, ev)
             elif dones:
                 flag("on_done-hook-without-top-level-final", f"{dones}", hist, ev)
